@@ -201,6 +201,8 @@ type scenario struct {
 	af     modelv1.AggregationFunction
 	topN   int
 	topAsc bool
+	// proj: tag projection of the request (row path), in request order
+	proj []string
 	// limit: QueryRequest.Limit of row-path scenarios (top field suffix "@L"); 0 = large
 	limit uint32
 	// t3int: every row's t3 is a decimal integer => t3 is declared TAG_TYPE_INT (int64 tag column)
@@ -225,7 +227,15 @@ func entag(s string) string {
 
 // <kind> <fn> <mask> <top> <nodes> <rows>
 func parseScenario(f []string) *scenario {
-	sc := &scenario{fnName: f[1], af: parseFn(f[1]), mask: f[2]}
+	sc := &scenario{fnName: f[1], af: parseFn(f[1]), mask: f[2][:3]}
+	// optional suffix pXYZ: the request's tag projection lists tags X, Y, Z (1-based, any order, a superset of the grouped tags)
+	sc.proj = []string{"t1", "t2", "t3"}
+	if len(f[2]) > 4 && f[2][3] == 'p' {
+		sc.proj = nil
+		for _, c := range f[2][4:] {
+			sc.proj = append(sc.proj, tagNames[int(c-'1')])
+		}
+	}
 	if i := strings.Index(f[3], "@"); i >= 0 {
 		l, _ := strconv.Atoi(f[3][i+1:])
 		sc.limit = uint32(l)
@@ -418,7 +428,7 @@ func (sc *scenario) request() *measurev1.QueryRequest {
 			End:   timestamppb.New(time.Unix(10, 0)),
 		},
 		TagProjection: &modelv1.TagProjection{TagFamilies: []*modelv1.TagProjection_TagFamily{
-			{Name: "default", Tags: []string{"t1", "t2", "t3"}},
+			{Name: "default", Tags: sc.proj},
 		}},
 		FieldProjection: &measurev1.QueryRequest_FieldProjection{Names: []string{"v"}},
 		Agg:             &measurev1.QueryRequest_Aggregation{Function: sc.af, FieldName: "v"},
